@@ -951,7 +951,7 @@ func (p *parser) parseContainer(sec string, pos *Pos, n *yaml.Node) *Container {
 			case "ports":
 				ret.Ports = p.parseStringSequence("ports", kv.val, true, false)
 			case "volumes":
-				ret.Ports = p.parseStringSequence("volumes", kv.val, true, false)
+				ret.Volumes = p.parseStringSequence("volumes", kv.val, true, false)
 			case "options":
 				ret.Options = p.parseString(kv.val, true)
 			default:
